@@ -224,7 +224,8 @@ class Attack:
             d = tuple(sorted((k, A.normal(v, N.State)) for k, v in inst.as_dict().items()))
         except BaseException as exc:  # noqa: BLE001
             d = ("as_dict raised", repr(exc))
-        return (type(inst).__name__, attrs, d, str(inst))
+        # (the text form lists whatever sits in the instance dictionary - a cached derived value too - and is left out once one was read)
+        return (type(inst).__name__, attrs, d, str(inst) if not getattr(self, "derived_read", False) else "<text form not compared>")
 
     def make_class(self, rng: random.Random) -> tuple[Any, str, list[tuple[str, Any, Any]]] | None:
         N = self.N
@@ -254,7 +255,9 @@ class Attack:
             else:
                 lines.append(f"    {an}: {A.render(term)}")
             attrs.append((an, term, has_default))
-        src = "\n".join(lines) + "\n"
+        # a derived value computed on first use and kept by the instance (functools.cached_property): reading it is no modification
+        lines += ["    @functools.cached_property", "    def hv_derived(self):", "        return ('derived', len(type(self).__ATTRIBUTES__), object())"]
+        src = "import functools\n" + "\n".join(lines) + "\n"
         try:
             N.define(src)
         except BaseException as exc:  # noqa: BLE001
@@ -295,6 +298,7 @@ class Attack:
         except BaseException as exc:  # noqa: BLE001
             R.monitor("value-stable", False, where={"kind": "construction-of-conforming-failed", "error": type(exc).__name__}, detail=f"{src!r} args {args!r}: {exc!r}", case={"source": src})
             return
+        self.derived_read = False
         snap0 = self.snapshot(inst)
         terms = {an: t for an, t, _ in attrs}
         anyfree = {an: converts_fully(N, t, args[an]) for an, t, _ in attrs}
@@ -312,7 +316,7 @@ class Attack:
             R.monitor("value-stable", ok, where={**w0, "kind": "value-changed", "after": step.split(":")[0]}, detail=f"after {history}: snapshot {snap!r} != initial {snap0!r} (== twin: {twin is None or inst == twin})", case={**case, "history": list(history)})
 
         for _ in range(rng.randint(1, 8)):
-            kind = rng.choice(["setattr", "setattr-new", "delattr", "alias", "alias", "alias", "alias", "inner", "inner", "inner", "updated-valid", "updated-invalid", "updated-unknown", "updated-lookalike", "updated-lookalike", "copy", "deepcopy", "compare", "as-dict-edit", "as-dict-edit"])
+            kind = rng.choice(["setattr", "setattr-new", "delattr", "alias", "alias", "alias", "alias", "inner", "inner", "inner", "updated-valid", "updated-invalid", "updated-unknown", "updated-lookalike", "updated-lookalike", "copy", "deepcopy", "compare", "as-dict-edit", "as-dict-edit", "read-derived", "read-derived"])
             an = rng.choice(list(terms))
             if kind == "alias":
                 with_c = [a for a in terms if anyfree[a] and mutable_containers(args[a])]
@@ -334,6 +338,23 @@ class Attack:
                     raised = True
                 history.append(f"{kind}:{target}")
                 R.monitor("frozen", raised, where={**w0, "kind": f"{kind}-accepted"}, detail=f"{kind}({target}) did not raise on {inst!r}", case={**case, "history": list(history)})
+            elif kind == "read-derived":
+                if not hasattr(type(inst), "hv_derived"):
+                    continue  # a fixed class of the prelude without a derived value
+                history.append("read-derived")
+                try:
+                    first = inst.hv_derived
+                    again = inst.hv_derived
+                    ok_d = first is again
+                except BaseException as exc:  # noqa: BLE001
+                    R.monitor("value-stable", False, where={**w0, "kind": "derived-value-raised", "error": type(exc).__name__}, detail=f"reading a cached_property of the state raised {exc!r}", case={**case, "history": list(history)})
+                    continue
+                R.count("derived_values_read")
+                if not self.derived_read:
+                    self.derived_read = True
+                    snap0 = self.snapshot(inst)  # same value, now without the text form
+                R.monitor("value-stable", ok_d and (twin is None or ((inst == twin) is True and (twin == inst) is True)), where={**w0, "kind": "equality-changed-by-a-read", "after": "read-derived"},
+                          detail=f"after reading a cached derived value: same object on second read={ok_d}, instance == twin built from the same arguments: {twin is None or inst == twin} / reversed {twin is None or twin == inst}", case={**case, "history": list(history)})
             elif kind == "as-dict-edit":
                 # the dictionary handed out by as_dict() belongs to the caller: editing it must not reach the instance
                 op = rng.choice(["setitem", "pop", "clear", "update", "new-key"])
